@@ -152,7 +152,8 @@ impl Prop for C02Prop {
         match fe {
             Fe::Push if rng.chance(1, 3) => {
                 let k = rng.range(1, 4);
-                l.ops = gen::gen_push_ops(rng, len, k);
+                let marks = gen::marks_of(&l.segs);
+                l.ops = gen::gen_push_ops_biased(rng, len, k, &marks);
                 l.sub = "corrupting-link+api-calls".into();
             }
             Fe::RdIo if rng.chance(1, 3) => {
@@ -166,6 +167,10 @@ impl Prop for C02Prop {
                 l.sub = "corrupting-link+source-faults".into();
             }
             _ => {}
+        }
+        if !l.src.is_empty() {
+            let marks = gen::marks_of(&l.segs);
+            gen::bias_src(rng, &mut l.src, &marks);
         }
         if buf == BufKind::Vec && matches!(fe, Fe::Push) && rng.chance(1, 4) {
             l.alloc_fail = rng.range(1, 10) as u64;
